@@ -456,6 +456,7 @@ ACTS_OUTS = ["keep", "out_add_front", "out_ec", "out_del", "out_del_last", "out_
 ACTS_EMPTYSRC = ["keep", "src1", "src7", "src4"]
 ACTS_LINES = ["keep", "src1", "src8", "src9", "src3", "src10", "src11"]
 ACTS_WARM = ["keep", "del", "src1", "src2"]
+ACTS_Q = ["keep", "src1", "src2", "src3", "src4", "src6"]
 ACTS_WS = ["keep", "src12", "src13", "src1"]
 ACTS_EMPTY = ["keep", "src1", "src2", "src3", "del"]
 ACTS_ATT_IN = ["keep", "att_edit", "src1", "att_add"]
@@ -489,6 +490,7 @@ def scenario_shards(tier, tool, kw):
     add("second-merge", templates=("codeA",), acts="ACTS_WARM", ins=(1, 1), warm=True)
     add("stale-md", templates=("codeStale",), acts="ACTS_STALE", ins=(0, 0))
     add("stale-md0", templates=("codeStale0",), acts="ACTS_STALE", ins=(0, 0))
+    add("patchins", templates=("codeQ",), acts="ACTS_Q", ins=(0, 0))
     add("empty-src", templates=("codeE",), acts="ACTS_EMPTY", ins=(0, 0), ids=(1,))
     add("whitespace", templates=("codeA",), acts="ACTS_WS", ins=(0, 0), ids=(1,))
     add("stale-att", templates=("mdStale",), acts="ACTS_STALE", ins=(0, 0))
@@ -635,6 +637,7 @@ def use_shards(tier, props, known):
                            ("transient", "codeTr", "ACTS_TRANSIENT"), ("long", "codeL", "ACTS_LONG"),
                            ("emptysrc", "codeA", "ACTS_EMPTYSRC")]:
         out.append(("make_use", "use-scn-%s" % name, dict(templates=(tm,), mode="merge", acts=acts, **kw)))
+    out.append(("make_use", "use-scn-patchins", dict(templates=("codeQ",), mode="merge", acts="ACTS_Q", **kw)))
     out.append(("make_use", "use-scn-empty-src", dict(templates=("codeE",), mode="merge", acts="ACTS_EMPTY", ids=(1,), **kw)))
     out.append(("make_use", "use-scn-input-att", dict(templates=("mdAtt",), mode="input", acts="ACTS_ATT_IN", mixed=True, **kw)))
     out.append(("make_use", "use-scn-output-img", dict(templates=("codeImgS",), mode="output", acts="ACTS_DISP", mixed=True, **kw)))
